@@ -238,4 +238,14 @@ theorem compact_nodeProps (c : Cfg) (s : Engine) (hdel : ∀ r ∈ s.runs, r.nDe
         simp only [if_true]
         cases lastNode s.store n k <;> rfl
 
+/-- the engine state a compaction may start from without losing anything: the runs hold no node or
+    edge tombstone and no property removal (the store is empty while there is no root) -/
+def compactSafe (s : Engine) : Bool :=
+  s.runs.all (fun r => r.tombNodes.isEmpty && r.tombEdges.isEmpty && r.nDel.isEmpty && r.eDel.isEmpty) &&
+  (s.propsRoot != 0 || s.store.isEmpty)
+
+/-- no node property key held by a run is already in the store (no key is sunk twice) -/
+def freshNodeKeys (s : Engine) : Bool :=
+  s.runs.all (fun r => r.nprops.all (fun p => (lastNode s.store p.1.1 p.1.2).isNone))
+
 end Nervus.Storage
